@@ -32,29 +32,135 @@ pub mod sys {
 
     pub mod signal {
         pub use nix_real::sys::signal::*;
+        use nix_real::sys::signal as real;
         use vstd::sim::{self, SigHandlerFn};
 
-        /// SIGURG / SIGVTALRM handlers are recorded by the simulator instead of being installed.
+        fn simulated(s: Signal) -> bool {
+            matches!(s, Signal::SIGURG | Signal::SIGVTALRM)
+        }
+
+        fn bits_of(set: &real::SigSet) -> u64 {
+            let mut b = 0u64;
+            for s in [Signal::SIGURG, Signal::SIGVTALRM] {
+                if set.contains(s) {
+                    b |= 1u64 << (s as i32 as u64);
+                }
+            }
+            b
+        }
+
+        /// `nix::sys::signal::SigSet` whose thread-mask operations act on the *simulated* mask for the
+        /// signals the simulator queues (SIGURG, SIGVTALRM) and on the real mask for all others.
+        #[derive(Clone, Copy, Debug, Eq, PartialEq)]
+        pub struct SigSet(real::SigSet);
+
+        impl SigSet {
+            pub fn empty() -> Self {
+                SigSet(real::SigSet::empty())
+            }
+            pub fn all() -> Self {
+                SigSet(real::SigSet::all())
+            }
+            pub fn add(&mut self, s: Signal) {
+                self.0.add(s);
+            }
+            pub fn remove(&mut self, s: Signal) {
+                self.0.remove(s);
+            }
+            pub fn clear(&mut self) {
+                self.0.clear();
+            }
+            pub fn contains(&self, s: Signal) -> bool {
+                self.0.contains(s)
+            }
+            pub fn real(&self) -> real::SigSet {
+                self.0
+            }
+            fn without_simulated(&self) -> real::SigSet {
+                let mut r = self.0;
+                r.remove(Signal::SIGURG);
+                r.remove(Signal::SIGVTALRM);
+                r
+            }
+            pub fn thread_get_mask() -> nix_real::Result<Self> {
+                sim::point("sigmask.get");
+                let mut r = real::SigSet::thread_get_mask()?;
+                let m = sim::sigmask_get();
+                for s in [Signal::SIGURG, Signal::SIGVTALRM] {
+                    if (m >> (s as i32 as u64)) & 1 == 1 {
+                        r.add(s);
+                    } else {
+                        r.remove(s);
+                    }
+                }
+                Ok(SigSet(r))
+            }
+            pub fn thread_set_mask(&self) -> nix_real::Result<()> {
+                sim::point("sigmask.set");
+                sim::sigmask_set(bits_of(&self.0));
+                self.without_simulated().thread_set_mask()
+            }
+            pub fn thread_block(&self) -> nix_real::Result<()> {
+                sim::point("sigmask.block");
+                sim::sigmask_set(sim::sigmask_get() | bits_of(&self.0));
+                self.without_simulated().thread_block()
+            }
+            pub fn thread_unblock(&self) -> nix_real::Result<()> {
+                sim::point("sigmask.unblock");
+                sim::sigmask_set(sim::sigmask_get() & !bits_of(&self.0));
+                self.without_simulated().thread_unblock()
+            }
+        }
+
+        /// `nix::sys::signal::SigAction` over the wrapper set.
+        #[derive(Clone, Copy)]
+        pub struct SigAction {
+            handler: SigHandler,
+            flags: SaFlags,
+            mask: SigSet,
+        }
+
+        impl SigAction {
+            pub fn new(handler: SigHandler, flags: SaFlags, mask: SigSet) -> Self {
+                SigAction { handler, flags, mask }
+            }
+            pub fn handler(&self) -> SigHandler {
+                self.handler
+            }
+            pub fn flags(&self) -> SaFlags {
+                self.flags
+            }
+            pub fn mask(&self) -> SigSet {
+                self.mask
+            }
+            fn real(&self) -> real::SigAction {
+                real::SigAction::new(self.handler, self.flags, self.mask.0)
+            }
+            fn of(r: &real::SigAction) -> Self {
+                SigAction { handler: r.handler(), flags: r.flags(), mask: SigSet(r.mask()) }
+            }
+        }
+
+        /// SIGURG / SIGVTALRM handlers are recorded by the simulator (with their sa_mask and
+        /// SA_NODEFER) instead of being installed.
         ///
         /// # Safety
         /// as the real `sigaction`
         pub unsafe fn sigaction(signal: Signal, sigaction: &SigAction) -> nix_real::Result<SigAction> {
             match signal {
-                Signal::SIGURG | Signal::SIGVTALRM => {
+                s if simulated(s) => {
+                    let sa_mask = bits_of(&sigaction.mask.0);
+                    let nodefer = sigaction.flags.contains(SaFlags::SA_NODEFER);
                     match sigaction.handler() {
                         SigHandler::Handler(f) => {
-                            sim::set_signal_handler(signal as i32, SigHandlerFn::Plain(f));
+                            sim::set_signal_handler(signal as i32, SigHandlerFn::Plain(f), sa_mask, nodefer);
                         }
                         SigHandler::SigAction(f) => {
-                            sim::set_signal_handler(signal as i32, SigHandlerFn::Info(f));
+                            sim::set_signal_handler(signal as i32, SigHandlerFn::Info(f), sa_mask, nodefer);
                         }
                         _ => {}
                     }
-                    Ok(SigAction::new(
-                        SigHandler::SigDfl,
-                        SaFlags::empty(),
-                        SigSet::empty(),
-                    ))
+                    Ok(SigAction::new(SigHandler::SigDfl, SaFlags::empty(), SigSet::empty()))
                 }
                 Signal::SIGSEGV | Signal::SIGBUS => {
                     // Real signal, real handler -- wrapped: if the handler of the code under test
@@ -62,17 +168,17 @@ pub mod sys {
                     // the fault would repeat forever; report it as a crash instead of hanging.
                     if let SigHandler::SigAction(f) = sigaction.handler() {
                         INNER_TRAP.store(f as usize, std::sync::atomic::Ordering::SeqCst);
-                        let wrapped = SigAction::new(
+                        let wrapped = real::SigAction::new(
                             SigHandler::SigAction(trap_wrapper),
                             sigaction.flags() | SaFlags::SA_SIGINFO,
-                            sigaction.mask(),
+                            sigaction.mask().0,
                         );
-                        nix_real::sys::signal::sigaction(signal, &wrapped)
+                        real::sigaction(signal, &wrapped).map(|r| SigAction::of(&r))
                     } else {
-                        nix_real::sys::signal::sigaction(signal, sigaction)
+                        real::sigaction(signal, &sigaction.real()).map(|r| SigAction::of(&r))
                     }
                 }
-                _ => nix_real::sys::signal::sigaction(signal, sigaction),
+                _ => real::sigaction(signal, &sigaction.real()).map(|r| SigAction::of(&r)),
             }
         }
 
